@@ -488,6 +488,65 @@ pub fn oplit_cases(sigil: Option<&'static str>) -> Vec<Case> {
 }
 
 // ---------------------------------------------------------------------------
+// DATA: quoted constants whose payload looks like code (operator numbers heading short lists).
+// Every pass that walks emitted code (path folding, constant folding, the classic post-optimiser,
+// CSE) must leave quoted payloads alone, whatever they look like.
+
+pub fn lookalike_payloads(thorough: bool) -> Vec<T> {
+    let i = T::int;
+    let rows_all: Vec<T> = vec![
+        T::list(&[i(5), i(100)]),
+        T::list(&[i(6), i(200)]),
+        T::p(i(1), i(100)),
+        T::list(&[i(2), i(100), i(200)]),
+        T::list(&[i(4), i(100), i(200)]),
+        T::list(&[i(5), i(1)]),
+        i(7),
+        T::list(&[i(1), i(100)]),
+        T::list(&[i(2), T::p(i(1), i(100)), i(1)]),
+        T::list(&[i(3), i(100), i(200), i(300)]),
+        T::list(&[i(6), i(2)]),
+        T::list(&[i(100)]),
+        T::list(&[i(5), T::list(&[i(6), i(100)])]),
+    ];
+    let rows: Vec<T> = if thorough { rows_all } else { rows_all.into_iter().take(7).collect() };
+    let mut out = vec![];
+    for r in &rows {
+        out.push(r.clone());
+    }
+    for a in &rows {
+        for b in &rows {
+            out.push(T::list(&[a.clone(), b.clone()]));
+            out.push(T::p(a.clone(), b.clone()));
+        }
+    }
+    if thorough {
+        for a in rows.iter().take(7) {
+            for b in rows.iter().take(7) {
+                for c in rows.iter().take(7) {
+                    out.push(T::list(&[a.clone(), b.clone(), c.clone()]));
+                }
+            }
+        }
+    }
+    out.sort();
+    out.dedup();
+    out
+}
+
+pub fn lookalike_cases(sigil: Option<&'static str>, thorough: bool, positions: &[&str]) -> Vec<Case> {
+    let mut out = vec![];
+    for (k, d) in lookalike_payloads(thorough).into_iter().enumerate() {
+        for pos in positions {
+            let mut c = place(E::Quote(d.clone()), pos, sigil, &format!("payload{}", k));
+            c.tags[0] = format!("data/{}", pos);
+            out.push(c);
+        }
+    }
+    out
+}
+
+// ---------------------------------------------------------------------------
 // CALLS: call graphs over <= 3 helpers, recursion, rest arguments, arity mismatches
 
 pub fn calls_cases(sigil: Option<&'static str>, max_helpers: usize) -> Vec<Case> {
